@@ -32,8 +32,9 @@ class Report:
     def fail(self, clause, inp, got=None, expected=None, known=None):
         # failures covered by a recorded known finding and new failures are capped separately, so that a flood of the former can
         # never crowd out one of the latter
-        kept = sum(1 for f in self.failures if bool(f["known"]) == bool(known))
-        if kept < (25 if known else 50):
+        # ... and per clause: a property may count only some clauses of a case, so every clause keeps its own witnesses
+        kept = sum(1 for f in self.failures if bool(f["known"]) == bool(known) and f["clause"] == clause)
+        if kept < (10 if known else 20):
             self.failures.append({"clause": clause, "input": inp, "got": got, "expected": expected, "known": known})
         else:
             self.failures_more = getattr(self, "failures_more", 0) + 1
